@@ -12,8 +12,13 @@
 //!   C03: Bitstring32 bits -> Display -> try_parse_str  must be accepted, keep the class and sign, and be a fixed point
 //!        from then on; the same bytes through `Bitstring` must re-read to the same bytes
 //!   C15: the same 4 bytes held by Bitstring32, Bitstring and BigBitstring must print, classify and convert identically
+//!
+//! Domains too large to enumerate (f64, i64…u128, 64/128-bit decimals) get *random* sweeps of the same conditions: half
+//! uniform bit patterns, half structured values (few digits, exponents near zero or at the limits), millions per run.
 use crate::ops::{hex, ryu_text, Dec};
+use crate::util::{enc_fin, Fmt, Rng};
 use decstr::*;
+use num_bigint::BigInt;
 use std::panic::{catch_unwind, AssertUnwindSafe};
 use std::sync::atomic::{AtomicU64, Ordering};
 
@@ -182,6 +187,242 @@ fn c15_one(bits: u32, out: &mut Vec<String>) {
     }
 }
 
+/// `count` random elements on all cores; every thread has its own SplitMix64 stream derived from the seed
+fn par_random<F: Fn(&mut Rng, &mut Vec<String>) + Sync>(count: u64, seed: u64, f: F) -> (u64, Vec<String>) {
+    let threads = std::thread::available_parallelism().map(|n| n.get()).unwrap_or(4).min(16) as u64;
+    let per = (count + threads - 1) / threads;
+    let mut out = vec![];
+    std::thread::scope(|s| {
+        let hs: Vec<_> = (0..threads)
+            .map(|t| {
+                let f = &f;
+                s.spawn(move || {
+                    let mut rng = Rng::new(seed.wrapping_mul(1000003).wrapping_add(t));
+                    let mut v = vec![];
+                    for _ in 0..per {
+                        if v.len() < 500 {
+                            f(&mut rng, &mut v);
+                        }
+                    }
+                    v
+                })
+            })
+            .collect();
+        for h in hs {
+            out.extend(h.join().unwrap_or_default());
+        }
+    });
+    (per * threads, out)
+}
+
+/// a decimal bit pattern of `n` 32-bit words: uniform bits, or a structured finite value
+fn rand_pattern(rng: &mut Rng, n: usize) -> Vec<u8> {
+    if rng.chance(1, 2) {
+        return rng.bytes(4 * n);
+    }
+    let f = Fmt { n };
+    let nd = 1 + rng.below(f.p() as u64) as usize;
+    let digits: Vec<u8> = (0..f.p()).map(|i| if i < f.p() - nd { b'0' } else { b'0' + rng.below(10) as u8 }).collect();
+    let q: i64 = match rng.below(4) {
+        0 => rng.range(-(nd as i64) - 3, 6),
+        1 => f.qmin_i() + rng.below(40) as i64,
+        2 => f.qmax_i() - rng.below(40) as i64,
+        _ => rng.range(f.qmin_i(), f.qmax_i()),
+    };
+    enc_fin(f, rng.chance(1, 2), &digits, &BigInt::from(q))
+}
+
+fn rand_f64(rng: &mut Rng) -> u64 {
+    match rng.below(4) {
+        0 => rng.next(),
+        1 => ((rng.below(2000) as i64 - 1000) as f64 * 10f64.powi(rng.range(-30, 30) as i32)).to_bits(),
+        2 => (rng.next() as u32 as f32 as f64 / 1000.0).to_bits(),
+        // few significant digits at any magnitude
+        _ => format!("{}e{}", rng.below(1_000_000), rng.range(-330, 310)).parse::<f64>().unwrap_or(0.0).to_bits(),
+    }
+}
+
+fn c12_f64<D: Dec>(rng: &mut Rng, out: &mut Vec<String>) {
+    let bits = rand_f64(rng);
+    let f = f64::from_bits(bits);
+    let ok = catch_unwind(AssertUnwindSafe(|| match D::from_f("f64", bits) {
+        Some(Some(d)) => match d.to_f("f64") {
+            Some(Some(back)) => {
+                if f.is_nan() {
+                    let g = f64::from_bits(back);
+                    g.is_nan() && g.is_sign_negative() == f.is_sign_negative()
+                } else {
+                    back == bits
+                }
+            }
+            _ => false,
+        },
+        Some(None) => {
+            let r = ryu_text("f64", bits);
+            let mant = r.split(|c| c == 'e' || c == 'E').next().unwrap_or("");
+            let written = mant.chars().filter(|c| c.is_ascii_digit()).count();
+            f.is_finite() && (D::NAME == "b32" || (D::NAME == "b64" && written > 16))
+        }
+        None => false,
+    }))
+    .unwrap_or(false);
+    if !ok {
+        out.push(format!("sweep-anomaly/from_f64/{}\tfrom_float {} f64 {:016x} {}", D::NAME, D::NAME, bits, tx(&ryu_text("f64", bits))));
+    }
+}
+
+fn c10_wide<D: Dec>(rng: &mut Rng, out: &mut Vec<String>) {
+    let raw = ((rng.next() as u128) << 64 | rng.next() as u128) >> rng.below(128);
+    let p = match D::NAME { "b32" => 7, "b64" => 16, "b128" => 34, _ => usize::MAX };
+    let cases: [(&str, i128, u128, String); 4] = [
+        ("i64", raw as i64 as i128, raw as i64 as i128 as u128, (raw as i64).to_string()),
+        ("u64", raw as u64 as i128, raw as u64 as u128, (raw as u64).to_string()),
+        ("i128", raw as i128, raw, (raw as i128).to_string()),
+        ("u128", raw as i128, raw, raw.to_string()),
+    ];
+    for (ity, v, vu, text) in cases {
+        let ok = catch_unwind(AssertUnwindSafe(|| match D::from_int(ity, v, vu) {
+            Some(Some(d)) => {
+                d.to_string() == text && if ity == "u128" { d.to_u128x() == Some(vu) } else { d.to_int(ity) == Some(Some(v)) }
+            }
+            Some(None) => text.trim_start_matches('-').len() > p,
+            None => false,
+        }))
+        .unwrap_or(false);
+        if !ok {
+            out.push(format!("sweep-anomaly/from_{}/{}\tfrom_int {} {} {}", ity, D::NAME, D::NAME, ity, text));
+        }
+    }
+}
+
+fn c13_wide<D: Dec>(n: usize) -> impl Fn(&mut Rng, &mut Vec<String>) + Sync {
+    move |rng, out| {
+        let le = rand_pattern(rng, n);
+        let ok = catch_unwind(AssertUnwindSafe(|| {
+            let Some(d) = D::from_le(&le).or_else(|| D::try_le(&le).and_then(|r| r.ok())) else { return false };
+            if !d.cls()[1] {
+                return true;
+            }
+            let text = d.to_string();
+            let e64 = text.parse::<f64>().ok().filter(|f| f.is_finite()).map(|f| f.to_bits());
+            let e32 = text.parse::<f32>().ok().filter(|f| f.is_finite()).map(|f| f.to_bits() as u64);
+            // beyond 17 significant digits the conversion may decline (its scratch buffer is finite): None or the rounding
+            let mant = text.split(|c| c == 'e' || c == 'E').next().unwrap_or("");
+            let sig = mant.chars().filter(|c| c.is_ascii_digit()).skip_while(|c| *c == '0').count();
+            let fine = |got: Option<Option<u64>>, want: Option<u64>| got == Some(want) || (sig > 17 && got == Some(None));
+            fine(d.to_f("f64"), e64) && fine(d.to_f("f32"), e32)
+        }))
+        .unwrap_or(false);
+        if !ok {
+            for fty in ["f32", "f64"] {
+                out.push(format!("sweep-anomaly/to_{}/{}\tto_float {} {} {}", fty, D::NAME, D::NAME, hex(&le), fty));
+            }
+        }
+    }
+}
+
+fn c03_wide<D: Dec>(n: usize) -> impl Fn(&mut Rng, &mut Vec<String>) + Sync {
+    move |rng, out| {
+        let le = rand_pattern(rng, n);
+        let ok = catch_unwind(AssertUnwindSafe(|| {
+            let Some(d) = D::from_le(&le).or_else(|| D::try_le(&le).and_then(|r| r.ok())) else { return false };
+            let t = d.to_string();
+            let Ok(d2) = D::parse_str(&t) else { return false };
+            let t2 = d2.to_string();
+            let Ok(d3) = D::parse_str(&t2) else { return false };
+            d2.le() == d3.le() && d.cls() == d2.cls() && t == t2
+        }))
+        .unwrap_or(false);
+        if !ok {
+            out.push(format!("sweep-anomaly/roundtrip/{}\troundtrip {} {}", D::NAME, D::NAME, hex(&le)));
+        }
+    }
+}
+
+fn c15_wide(n: usize) -> impl Fn(&mut Rng, &mut Vec<String>) + Sync {
+    move |rng, out| {
+        let le = rand_pattern(rng, n);
+        type View = Option<(String, [bool; 6], Option<Option<i128>>, Option<Option<i128>>, Option<Option<u64>>, Option<Option<u64>>)>;
+        fn view<D: Dec>(le: &[u8]) -> View {
+            let d = match D::from_le(le) {
+                Some(d) => d,
+                None => D::try_le(le)?.ok()?,
+            };
+            Some((d.to_string(), d.cls(), d.to_int("i64"), d.to_int("u8"), d.to_f("f64"), d.to_f("f32")))
+        }
+        let fixed: &str = if n == 2 { "b64" } else { "b128" };
+        let ok = catch_unwind(AssertUnwindSafe(|| {
+            let a = if n == 2 { view::<Bitstring64>(&le) } else { view::<Bitstring128>(&le) };
+            let b = view::<Bitstring>(&le);
+            #[cfg(feature = "big")]
+            let c = view::<BigBitstring>(&le);
+            #[cfg(not(feature = "big"))]
+            let c = b.clone();
+            a.is_some() && a == b && b == c
+        }))
+        .unwrap_or(false);
+        if !ok {
+            for ty in [fixed, "dyn", "big"] {
+                out.push(format!("sweep-anomaly/format/{}\tformat {} {}", ty, ty, hex(&le)));
+                out.push(format!("sweep-anomaly/classify/{}\tclassify {} {}", ty, ty, hex(&le)));
+                out.push(format!("sweep-anomaly/to_int/{}\tto_int {} {} i64", ty, ty, hex(&le)));
+                out.push(format!("sweep-anomaly/to_float/{}\tto_float {} {} f64", ty, ty, hex(&le)));
+            }
+        }
+    }
+}
+
+/// C11: the ten integer targets must be consistent with one exact value (that of `to_i128`, or `to_u128` above it):
+/// `to_<int>` is `Some(v)` exactly when `v` lies in the target's range
+fn c11_one(bits: u32, out: &mut Vec<String>) {
+    let le = bits.to_le_bytes();
+    c11_bytes::<Bitstring32>(&le, out);
+}
+
+fn c11_bytes<D: Dec>(le: &[u8], out: &mut Vec<String>) {
+    const T: [(&str, i128, i128); 9] = [
+        ("i8", i8::MIN as i128, i8::MAX as i128), ("i16", i16::MIN as i128, i16::MAX as i128), ("i32", i32::MIN as i128, i32::MAX as i128),
+        ("i64", i64::MIN as i128, i64::MAX as i128), ("i128", i128::MIN, i128::MAX), ("u8", 0, u8::MAX as i128), ("u16", 0, u16::MAX as i128),
+        ("u32", 0, u32::MAX as i128), ("u64", 0, u64::MAX as i128),
+    ];
+    let ok = catch_unwind(AssertUnwindSafe(|| {
+        let Some(d) = D::from_le(le).or_else(|| D::try_le(le).and_then(|r| r.ok())) else { return false };
+        let wide = d.to_int("i128").flatten();
+        let uwide = d.to_u128x();
+        // the two widest targets agree where their ranges overlap
+        if let (Some(a), Some(b)) = (wide, uwide) {
+            if a < 0 || a as u128 != b {
+                return false;
+            }
+        }
+        if wide.map_or(false, |a| a >= 0) != uwide.map_or(false, |b| b <= i128::MAX as u128) && !(d.cls()[0] && wide == Some(0)) {
+            return false;
+        }
+        // a negative zero converts to 0 in the signed targets; the unsigned ones may decline it (sign never into unsigned)
+        let neg_zero = d.cls()[0] && wide == Some(0);
+        T.iter().all(|(name, lo, hi)| {
+            let got = d.to_int(name).flatten();
+            match wide {
+                Some(v) => got == (if *lo <= v && v <= *hi { Some(v) } else { None }) || (neg_zero && *lo == 0 && got.is_none()),
+                None => got.is_none(),
+            }
+        })
+    }))
+    .unwrap_or(false);
+    if !ok {
+        for name in ["i8", "i64", "i128", "u8", "u64", "u128"] {
+            out.push(format!("sweep-anomaly/to_{}/{}\tto_int {} {} {}", name, D::NAME, D::NAME, hex(le), name));
+        }
+    }
+}
+
+fn c11_wide<D: Dec>(n: usize) -> impl Fn(&mut Rng, &mut Vec<String>) + Sync {
+    move |rng, out| {
+        let le = rand_pattern(rng, n);
+        c11_bytes::<D>(&le, out);
+    }
+}
+
 pub fn run(p: &Plan) {
     // strides are primes, so that every residue class of every power of two is visited; the offset comes from the seed
     let mut report = vec![];
@@ -196,6 +437,17 @@ pub fn run(p: &Plan) {
         ));
         emitted.extend(v);
     };
+    let mut report2 = vec![];
+    let mut emitted2: Vec<String> = vec![];
+    let mut rnd = |name: &str, count: u64, f: &(dyn Fn(&mut Rng, &mut Vec<String>) + Sync)| {
+        let t0 = std::time::Instant::now();
+        let (n, v) = par_random(count, p.seed, f);
+        report2.push(format!(
+            "{{\"sweep\":\"{}\",\"domain\":\"random\",\"elements\":{},\"anomalies\":{},\"seconds\":{:.1}}}",
+            name, n, v.len(), t0.elapsed().as_secs_f64()
+        ));
+        emitted2.extend(v);
+    };
     let t = p.thorough;
     match p.prop.as_str() {
         "C12" => {
@@ -205,6 +457,13 @@ pub fn run(p: &Plan) {
             go("from_f32->to_f32 identical bits, Bitstring", if t { 1 } else { 127 }, &c12_one::<Bitstring>);
             #[cfg(feature = "big")]
             go("from_f32->to_f32 identical bits, BigBitstring", if t { 7 } else { 1021 }, &c12_one::<BigBitstring>);
+            let m = if t { 400_000_000 } else { 8_000_000 };
+            rnd("from_f64->to_f64 identical bits, Bitstring64", m, &c12_f64::<Bitstring64>);
+            rnd("from_f64->to_f64 identical bits, Bitstring128", m, &c12_f64::<Bitstring128>);
+            rnd("from_f64->to_f64 identical bits, Bitstring", m, &c12_f64::<Bitstring>);
+            rnd("from_f64->to_f64 identical bits, Bitstring32", m / 8, &c12_f64::<Bitstring32>);
+            #[cfg(feature = "big")]
+            rnd("from_f64->to_f64 identical bits, BigBitstring", m / 8, &c12_f64::<BigBitstring>);
         }
         "C10" => {
             go("from_i32/u32->Display,to_i32/u32, Bitstring32", if t { 1 } else { 101 }, &c10_one::<Bitstring32>);
@@ -213,20 +472,47 @@ pub fn run(p: &Plan) {
             go("from_i32/u32->Display,to_i32/u32, Bitstring", if t { 3 } else { 211 }, &c10_one::<Bitstring>);
             #[cfg(feature = "big")]
             go("from_i32/u32->Display,to_i32/u32, BigBitstring", if t { 11 } else { 1009 }, &c10_one::<BigBitstring>);
+            let m = if t { 100_000_000 } else { 2_000_000 };
+            rnd("from_i64/u64/i128/u128->Display,to_*, Bitstring32", m, &c10_wide::<Bitstring32>);
+            rnd("from_i64/u64/i128/u128->Display,to_*, Bitstring64", m, &c10_wide::<Bitstring64>);
+            rnd("from_i64/u64/i128/u128->Display,to_*, Bitstring128", m, &c10_wide::<Bitstring128>);
+            rnd("from_i64/u64/i128/u128->Display,to_*, Bitstring", m, &c10_wide::<Bitstring>);
+            #[cfg(feature = "big")]
+            rnd("from_i64/u64/i128/u128->Display,to_*, BigBitstring", m / 4, &c10_wide::<BigBitstring>);
         }
         "C03" => {
             go("Bitstring32 -> Display -> try_parse_str: accepted, class kept, fixed point; same via Bitstring", if t { 1 } else { 211 }, &c03_one);
+            let m = if t { 200_000_000 } else { 3_000_000 };
+            rnd("Bitstring64 -> Display -> try_parse_str fixed point", m, &c03_wide::<Bitstring64>(2));
+            rnd("Bitstring128 -> Display -> try_parse_str fixed point", m, &c03_wide::<Bitstring128>(4));
+            rnd("Bitstring (96/160 bits) -> Display -> try_parse_str fixed point", m / 2, &c03_wide::<Bitstring>(3));
+            rnd("Bitstring (160 bits) -> Display -> try_parse_str fixed point", m / 2, &c03_wide::<Bitstring>(5));
         }
         "C15" => {
             go("same 4 bytes in Bitstring32/Bitstring/BigBitstring: Display, classes, to_i64, to_u8, to_f64, to_f32 agree", if t { 3 } else { 251 }, &c15_one);
+            let m = if t { 100_000_000 } else { 2_000_000 };
+            rnd("same 8 bytes in Bitstring64/Bitstring/BigBitstring agree", m, &c15_wide(2));
+            rnd("same 16 bytes in Bitstring128/Bitstring/BigBitstring agree", m, &c15_wide(4));
+        }
+        "C11" => {
+            go("Bitstring32: the ten integer targets are consistent with one exact value", if t { 1 } else { 101 }, &c11_one);
+            let m = if t { 200_000_000 } else { 4_000_000 };
+            rnd("Bitstring64: integer targets consistent", m, &c11_wide::<Bitstring64>(2));
+            rnd("Bitstring128: integer targets consistent", m, &c11_wide::<Bitstring128>(4));
+            rnd("Bitstring 160 bits: integer targets consistent", m / 2, &c11_wide::<Bitstring>(5));
         }
         "C13" => {
             go("Bitstring32 to_f32/to_f64 = str::parse(Display)", if t { 1 } else { 211 }, &c13_one);
+            let m = if t { 200_000_000 } else { 3_000_000 };
+            rnd("Bitstring64 to_f32/to_f64 = str::parse(Display)", m, &c13_wide::<Bitstring64>(2));
+            rnd("Bitstring128 to_f32/to_f64 = str::parse(Display)", m, &c13_wide::<Bitstring128>(4));
+            rnd("Bitstring 160 bits to_f32/to_f64 = str::parse(Display)", m / 2, &c13_wide::<Bitstring>(5));
         }
         _ => {}
     }
-    for l in &emitted {
+    for l in emitted.iter().chain(emitted2.iter()) {
         println!("{}", l);
     }
+    report.extend(report2);
     eprintln!("[{}]", report.join(","));
 }
